@@ -7,9 +7,9 @@ WHAT=${1:-plain}
 export GOFLAGS=-mod=mod GOPROXY=off GOSUMDB=off GOTOOLCHAIN=local CGO_ENABLED=1
 export PATH=/opt/veriftools/go1.26.8/bin:$PATH
 GO=/opt/veriftools/go1.26.8/bin/go
-V=/verif
+V=${VERIF_SRC:-/verif}   # VERIF_SRC: evaluate with a frozen copy of the simulator sources (tools/seeded_all.sh)
 REPO=${VERIF_REPO:-/repo}
-CACHE=$V/.cache
+CACHE=/verif/.cache
 mkdir -p "$CACHE"
 # key: repo working tree (tracked+untracked Go-relevant files) + verif sources + toolchain
 KEY=$( (cd $REPO && find . -path ./.git -prune -o -type f \( -name '*.go' -o -name 'go.mod' -o -name 'go.sum' -o -name 'p4info.txt' \) -print0 | sort -z | xargs -0 sha256sum; \
